@@ -339,6 +339,7 @@ class SyncProxy:
 
     def etag(self):
         self.env.etag_calls += 1
+        self.env.in_source_call()
         if self.env.coop:
             return self._parked(self._etag)
         self.env.gate()
@@ -346,6 +347,7 @@ class SyncProxy:
 
     def load(self):
         self.env.load_calls += 1
+        self.env.in_source_call()
         if self.env.coop:
             return self._parked(self._load)
         self.env.gate()
@@ -355,6 +357,7 @@ class SyncProxy:
 class AsyncProxy(SyncProxy):
     async def etag(self):
         self.env.etag_calls += 1
+        self.env.in_source_call()
         if self.env.coop:
             await _Gate()
         else:
@@ -364,6 +367,7 @@ class AsyncProxy(SyncProxy):
 
     async def load(self):
         self.env.load_calls += 1
+        self.env.in_source_call()
         if self.env.coop:
             await _Gate()
         else:
@@ -387,6 +391,8 @@ class Env:
         self.pending_mid: list | None = None
         self.gates: dict[int, Any] = {}
         self.coop = False
+        self.lock_violations: list[str] = []
+        self.reloader = None
         self.clock_us = NOW0
         self.u = 0.0
         self.u_by_thread: dict[int, float] = {}
@@ -423,6 +429,12 @@ class Env:
         g = self.gates.get(threading.get_ident())
         if g is not None:
             g()
+
+    def in_source_call(self):
+        """a source call must not be made with the reloader lock held (blocks 2 and 3 are unlocked)"""
+        rl = self.reloader
+        if rl is not None and rl.__dict__.get("_armed") and rl._lock._is_owned():
+            self.lock_violations.append("source call with the reloader lock held")
 
     def first_call_done(self):
         if self.pending_mid is not None:
@@ -473,6 +485,31 @@ class Env:
                 self.client.head_fails = bool(op["v"])
             elif k == "attrs_fail":
                 self.client.attrs_fail = bool(op["v"])
+
+
+GUARDED = ("_last_etag", "_suppress_until", "_backoff", "_last_error")
+
+
+class WatchedReloader(HotReloader):
+    """the real HotReloader; every write to the state the model treats as updated in a locked block is
+    checked to happen with the reloader's lock held (the atomic-block assumption of `stepThread`)"""
+
+    def __setattr__(self, name, value):
+        if name in GUARDED and self.__dict__.get("_armed"):
+            lock = self.__dict__.get("_lock")
+            if lock is not None and not lock._is_owned():
+                self.__dict__["_env"].lock_violations.append("unlocked write to " + name)
+        object.__setattr__(self, name, value)
+
+
+class WatchedGuard(Guard):
+    reloader = None
+
+    def set_policy(self, policy):
+        rl = self.reloader
+        if rl is not None and rl.__dict__.get("_armed") and not rl._lock._is_owned():
+            rl.__dict__["_env"].lock_violations.append("set_policy outside the reloader lock")
+        super().set_policy(policy)
 
 
 class CountingCache(DefaultInMemoryCache):
@@ -711,7 +748,7 @@ def _guard() -> Guard:
     """one real Guard for the whole run (its constructor allocates an event loop); every history resets
     its policy and gives it a fresh cache"""
     if not _GUARD:
-        _GUARD.append(Guard(dict(POLICY0), cache=CountingCache()))
+        _GUARD.append(WatchedGuard(dict(POLICY0), cache=CountingCache()))
     return _GUARD[0]
 
 
@@ -735,9 +772,14 @@ def execute(case: dict, tmpdir: str) -> tuple[list[dict], list[dict], list[dict]
         guard.cache = cache
         guard.set_policy(dict(POLICY0))
         cache.clears = 0
-        rl = HotReloader(guard, env.proxy, initial_load=bool(case["initial_load"]), poll_interval=None,
-                         backoff_min=cfg["backoff_min"] / 1e6, backoff_max=cfg["backoff_max"] / 1e6,
-                         jitter_ratio=cfg["ratio"][0] / cfg["ratio"][1])
+        guard.reloader = None
+        rl = WatchedReloader(guard, env.proxy, initial_load=bool(case["initial_load"]), poll_interval=None,
+                             backoff_min=cfg["backoff_min"] / 1e6, backoff_max=cfg["backoff_max"] / 1e6,
+                             jitter_ratio=cfg["ratio"][0] / cfg["ratio"][1])
+        rl.__dict__["_env"] = env
+        rl.__dict__["_armed"] = True
+        env.reloader = rl
+        guard.reloader = rl
 
         def snap(results: list) -> dict:
             return {"results": results, "policy": marker(guard.policy), "last_etag": rl.last_etag,
@@ -771,6 +813,7 @@ def execute(case: dict, tmpdir: str) -> tuple[list[dict], list[dict], list[dict]
             if gone != (cache.clears != clears0):
                 r["cache_epoch"] = -1
             recs.append(r)
+        recs[-1]["lock_violations"] = sorted(set(env.lock_violations))
         return init_ops, ops, recs
     finally:
         env.close()
@@ -789,14 +832,17 @@ def proj(rec: dict) -> list:
     return [rec[f] for f in FIELDS]
 
 
-def first_diff(impl: list[dict], model: list[dict]) -> dict | None:
+def first_diff(impl: list[dict], model: list[dict], fields: list[str] = FIELDS) -> dict | None:
     if len(impl) != len(model):
         return {"at": -1, "why": f"trace lengths {len(impl)} / {len(model)}"}
     for i, (a, b) in enumerate(zip(impl, model)):
-        if proj(a) != proj(b):
+        if [a[f] for f in fields] != [b[f] for f in fields]:
             return {"at": i - 1, "impl": {f: a[f] for f in FIELDS}, "model": {f: b[f] for f in FIELDS},
-                    "fields": [f for f in FIELDS if a[f] != b[f]]}
+                    "fields": [f for f in fields if a[f] != b[f]]}
     return None
+
+
+FIELDS_NO_TIMING = [f for f in FIELDS if f != "suppressed_until"]
 
 
 def spec_fails(spec: dict) -> list[str]:
@@ -1020,25 +1066,56 @@ class Tally:
         self.f9_hits: list[dict] = []
         self.kinds: dict[str, int] = {}
         self.checks = 0
+        self.timing_only: list[dict] = []
 
 
 def evaluate_batch(run: lib.Run, batch: list[tuple[dict, list, list, list]], tally: Tally, record: bool = True) -> list[dict]:
     """send a batch to the driver; returns one verdict dict per case"""
     cmds = [driver_cmd(case, init_ops, ops, impl) for case, init_ops, ops, impl in batch]
     answers = proto.run_driver(cmds)
+    # cases whose trace differs from the model's exact back-off arithmetic are run again with the model as a
+    # monitor that adopts the implementation's own windows (each bounded by the spec predicate `backoff`)
+    redo = []
+    for k, ((case, init_ops, ops, impl), ans) in enumerate(zip(batch, answers)):
+        is_http = KINDS[case["kind"]]["type"] == "http"
+        if first_diff(impl, ans["model"]) is not None and (not is_http or first_diff(impl, ans["model_remote"]) is not None):
+            redo.append(k)
+    adopted = {}
+    if redo:
+        cmds2 = []
+        for k in redo:
+            case, init_ops, ops, impl = batch[k]
+            c = driver_cmd(case, init_ops, ops, impl)
+            c["adopt"] = [r["suppressed_until"] for r in impl]
+            cmds2.append(c)
+        adopted = dict(zip(redo, proto.run_driver(cmds2)))
     verdicts = []
-    for (case, init_ops, ops, impl), ans in zip(batch, answers):
+    for k, ((case, init_ops, ops, impl), ans) in enumerate(zip(batch, answers)):
         is_http = KINDS[case["kind"]]["type"] == "http"
         d_cached = first_diff(impl, ans["model"])
         d_remote = first_diff(impl, ans["model_remote"]) if is_http else None
         spec = ans["spec"]
         bad = spec_fails(spec)
+        timing_only = False
+        if k in adopted and not bad:
+            a2 = adopted[k]
+            ok_c = first_diff(impl, a2["model"], FIELDS_NO_TIMING) is None and a2["same_failures"]
+            ok_r = is_http and first_diff(impl, a2["model_remote"], FIELDS_NO_TIMING) is None and a2["same_failures_remote"]
+            if ok_c or ok_r:
+                timing_only = True
+                tally.timing_only.append({"case": case, "first_difference": d_cached})
+                d_cached = None if ok_c else d_cached
+                d_remote = None if ok_r else d_remote
         variant = None
         if is_http:
             variant = "cached" if d_cached is None else ("remote" if d_remote is None else None)
             disagree = d_cached is not None and d_remote is not None
         else:
             disagree = d_cached is not None
+        lockv = impl[-1].get("lock_violations") or []
+        if lockv:
+            disagree = True
+            d_cached = d_cached or {"at": -1, "why": "atomic-block assumption broken: " + "; ".join(lockv)}
         # F9 signature: HTTP source, server sends ETags, the only failing clause is convergence (the engine does
         # not enforce the server's document), and the trace is exactly what the cached-tag variant predicts
         cm, cr = ans.get("converge_model") or {}, ans.get("converge_model_remote") or {}
@@ -1204,6 +1281,12 @@ def check(run: lib.Run, audit: dict) -> int:
                                          "convergence_failures_with_F9_signature": len(tally.f9_hits)}
     run.extra["cases_per_source_kind"] = dict(sorted(tally.kinds.items()))
     run.extra["checks_executed_on_real_reloader"] = tally.checks
+    if tally.timing_only:
+        run.extra["backoff_schedule_differs_from_model"] = {"cases": len(tally.timing_only), "first": tally.timing_only[0]}
+        run.notes.append(f"{len(tally.timing_only)} histories: the implementation's suppression windows differ from the modelled formula "
+                         "(min(backoff_max, max(backoff_min, 2·backoff)) + jitter, floor 0.2) but every observed window satisfies the bound "
+                         "and everything else agrees with the model run on the implementation's own windows: the property holds on these "
+                         "traces; theorems c10_backoff_bounded* speak about the modelled formula, not about this schedule")
     if f9_witness_reproduces or tally.f9_hits:
         if (findings.get("F9") or {}).get("status") == "known":
             run.known.append(F9_LINE)
